@@ -4,8 +4,6 @@ Monitor: icontract post-conditions installed on ibldsp.voltage.saturation (every
 direct, loop-free-of-shared-code reference of the proportion rule) + a metamorphic monitor (same flags =>
 same mute).  Boundary workload built with nextafter around each threshold and k = p*nc-1, p*nc, p*nc+1 channels.
 """
-from fractions import Fraction
-
 import numpy as np
 
 from vlib import monitors as M
@@ -36,19 +34,22 @@ def gen_cases(seed, tier):
 
 
 def reference_flags(data, max_voltage, v_per_sec, fs, proportion):
-    """direct statement of the rule, exact rational comparison against the proportion"""
+    """direct statement of the rule: the fraction of channels beyond a limit, k / nc, is compared with the proportion"""
     data = np.asarray(data)
     nc, ns = data.shape
-    rng_v = np.broadcast_to(np.atleast_1d(max_voltage), (nc,)) if np.size(max_voltage) in (1, nc) else None
-    thr = (np.atleast_1d(max_voltage) * 0.98)
-    thr = np.broadcast_to(thr, (nc,))
-    over = np.abs(data) > thr[:, None]
-    kv = over.sum(axis=0)
-    slew = np.abs(np.diff(data, axis=-1)) / fs >= v_per_sec
-    ks = np.r_[slew.sum(axis=0), 0]
-    P = Fraction(float(proportion))
-    flags = np.array([(Fraction(int(a), nc) > P) or (Fraction(int(b), nc) > P) for a, b in zip(kv, ks)], bool)
-    return flags
+    thr = np.broadcast_to(np.atleast_1d(max_voltage) * 0.98, (nc,))
+    kv = (np.abs(data) > thr[:, None]).sum(axis=0)
+    ks = np.r_[(np.abs(np.diff(data, axis=-1)) / fs >= v_per_sec).sum(axis=0), 0]
+    p = float(proportion)
+    return np.array([(int(a) / nc > p) or (int(b) / nc > p) for a, b in zip(kv, ks)], bool)
+
+
+def kcrit_of(p, nc):
+    """largest number of channels that is NOT more than the proportion p of nc (k / nc > p is false)"""
+    k = int(np.floor(p * nc)) + 2
+    while k > 0 and k / nc > p:
+        k -= 1
+    return k
 
 
 @M.counted("saturation_post")
@@ -121,7 +122,7 @@ def place_flags(rng, ns, kind):
 def build_voltage(rng, nc, ns, want, p, rngv, dt, off, place):
     """voltage rule only (slew limit is set out of reach by the caller): flagged samples get kcrit+1(+1) channels just above
     0.98*range, unflagged ones kcrit+off (off<=0) channels just above and a third of the others exactly *at* the threshold"""
-    kcrit = int(np.floor(p * nc))             # k > p*nc  <=>  k >= kcrit+1
+    kcrit = kcrit_of(p, nc)                   # k / nc > p  <=>  k >= kcrit + 1
     thr = np.broadcast_to(np.atleast_1d(rngv) * 0.98, (nc,)).astype(np.float64)
     x = rng.uniform(-0.5, 0.5, (nc, ns)) * thr[:, None]
     ats = 0
@@ -144,7 +145,7 @@ def build_voltage(rng, nc, ns, want, p, rngv, dt, off, place):
 def build_slew(rng, nc, ns, want, p, lim, dt, off, place):
     """slew rule only (range out of reach): into-next-sample steps just above the limit on kcrit+1 channels for flagged samples,
     on kcrit+off channels otherwise; every other step just below the limit"""
-    kcrit = int(np.floor(p * nc))
+    kcrit = kcrit_of(p, nc)
     eps = 1e-6 if place == "ulp" else 1e-2
     steps = np.zeros((nc, ns - 1))
     for t in range(ns - 1):
@@ -174,8 +175,16 @@ def run_case(case):
         lim = v_per_sec * fs
         w = int(rng.integers(1, 16))
         if cls == "boundary":
-            p = float(rng.choice([0.125, 0.25, 0.5, 0.2]))
-            nc = int(rng.choice([8, 16, 24, 40, 64, 80, 160, 384, 400])) if p != 0.2 else int(rng.choice([5, 10, 40, 385, 400]))
+            p = float(rng.choice([0.125, 0.25, 0.5, 0.2, 0.29, 0.57, 0.58, 0.7, 0.35, 0.1, 0.3, 0.15]))
+            if p in (0.125, 0.25, 0.5):
+                nc = int(rng.choice([8, 16, 24, 40, 64, 80, 160, 384, 400]))
+            elif p == 0.2:
+                nc = int(rng.choice([5, 10, 40, 385, 400]))
+            else:       # decimal proportions for which p * nc is a whole number of channels (the boundary 'exactly the proportion' exists)
+                nc = int(rng.choice([20, 50, 90, 100, 170, 180, 200, 300, 340, 360, 400]))
+                if rng.random() < 0.5:      # proportion given as k / nc
+                    nc = int(rng.integers(2, 401))
+                    p = int(rng.integers(1, nc)) / nc
             ns = int(rng.integers(60, 200))
             per_ch = rng.random() < 0.5
             rule = str(rng.choice(["voltage", "slew"]))
